@@ -297,6 +297,7 @@ def stats_views(ctx, thorough):
     import gen_sflow
     ctx.tlc_model("Stats", "StatsMC.cfg", workers=8)
     ctx.tlc_must_fail("Stats", "StatsMisWired.cfg", expect="QuietExact", workers=8)
+    ctx.apalache_inductive("StatsApa", indinit="IndInit")      # the same relations for any number of datagrams (inductive invariant)
     binary = ctx.go_build_bin("vflow")
     gs = gen_sflow.Gen(ctx.rng)
     # one sFlow datagram (a flow sample) the stand-alone decoder accepts; the copies differ in their sequence number
